@@ -23,5 +23,17 @@ if os.path.exists(mp):
     lines = open(mp).read().splitlines()
     matrix = '\n'.join(l for l in lines if l.startswith('|') or l.startswith('own check'))
 out.append(tail.replace('@MATRIX@', matrix))
-open(os.path.join(H, 'DESIGN.md'), 'w').write('\n'.join(out))
+import glob, re
+text = '\n'.join(out)
+eng = sum(len(open(f).read().splitlines()) for f in glob.glob(os.path.join(H, 'gscan', '*.py')))
+rul = sum(len(open(f).read().splitlines()) for f in glob.glob(os.path.join(H, 'gscan', 'rules', '*.py')))
+st = open(os.path.join(H, 'gscan', 'selftest.py')).read()
+import importlib.util, sys
+sys.path.insert(0, H)
+from gscan import selftest as _st
+nm = sum(len(v.get('mutants', [])) for v in _st.VARIANTS.values())
+nr = sum(len(v.get('refactors', [])) for v in _st.VARIANTS.values()) + 6 * 20
+text = text.replace('@ENG@', f'{round(eng, -2):,}'.replace(',', ' ')).replace('@RUL@', f'{round(rul, -2):,}'.replace(',', ' '))
+text = text.replace('@NMUT@', str(nm)).replace('@NREF@', str(nr))
+open(os.path.join(H, 'DESIGN.md'), 'w').write(text)
 print('DESIGN.md', sum(len(x.splitlines()) for x in out), 'lines')
